@@ -472,23 +472,34 @@ func ruleCppPrimitiveFamilies(c *core.Ctx) {
 func ruleStateMachineSchemaCheck(c *core.Ctx) {
 	const rule = "H1"
 	c.Rule(rule, "generated readers check the schema: C++ binary reader constructors initialise version_ with VersionFromSchema(schema_read_); the emitted VersionFromSchema compares with the current and every previous schema and ends in an unconditional throw; generated Python readers pass <Reader>.schema (never None) to the runtime reader, whose schema comparison is then active", 8)
-	// C++ constructors
-	rows, d, _ := geeRows(c, "internal/cpp/binary", "writeHeaderFile")
+	// C++ constructors: every emitted `version_(...)` initialiser of a generated binary reader is
+	// VersionFromSchema(schema_read_), and both BinaryReader base initialisers exist — decided on the
+	// text constants of writeHeaderFile and the helpers it calls, however the constructor is assembled
+	_, d, _ := c.Func("internal/cpp/binary", "writeHeaderFile")
 	if d == nil {
 		c.Undecided(rule, "anchor/cpp/binary.writeHeaderFile", 0, "anchor not found")
 	} else {
-		n := 0
-		for _, r := range rows {
-			if r.Kind == "emit" && strings.Contains(r.Tmpl, "yardl::binary::BinaryReader(") {
-				n++
-				c.Check(strings.Contains(r.Tmpl, "version_(%s::VersionFromSchema(schema_read_))"), rule, "cpp reader constructor", r.Pos, "version_ = VersionFromSchema(schema_read_)",
-					"a generated binary reader constructor does not pass the schema read from the stream to VersionFromSchema: a foreign stream is decoded as if it were its own")
+		nVersion, nBase, badInit := 0, 0, ""
+		for _, s := range stringConstantsDeep(c, "internal/cpp/binary", "writeHeaderFile") {
+			if strings.Contains(s, "yardl::binary::BinaryReader(") {
+				nBase++
+			}
+			if strings.Contains(s, "version_(") {
+				if strings.Contains(s, "version_(version)") && !strings.Contains(s, "BinaryReader(") {
+					continue // the writers' initialiser: the version is a constructor parameter there
+				}
+				nVersion++
+				if !strings.Contains(s, "::VersionFromSchema(schema_read_)") {
+					badInit = s
+				}
 			}
 		}
-		c.Check(n == 2, rule, "cpp reader constructors found", d.Pos(), "2 constructors", fmt.Sprintf("expected 2 generated reader constructors, found %d", n))
+		c.Check(nVersion > 0 && badInit == "", rule, "cpp reader constructor", d.Pos(), "version_ = VersionFromSchema(schema_read_)",
+			"a generated binary reader constructor does not pass the schema read from the stream to VersionFromSchema: a foreign stream is decoded as if it were its own ("+strings.TrimSpace(badInit)+")")
+		c.Check(nBase >= 1, rule, "cpp reader constructors found", d.Pos(), "the generated readers initialise their yardl::binary::BinaryReader base (which reads the header)", "no generated reader constructor initialises the BinaryReader base")
 	}
-	// VersionFromSchema body
-	prow, pd, _ := geeRows(c, "internal/cpp/protocols", "writeDefinitions")
+	// VersionFromSchema body (helpers expanded in place)
+	prow, pd := flatRows(c, "internal/cpp/protocols", "writeDefinitions")
 	if pd == nil {
 		c.Undecided(rule, "anchor/cpp/protocols.writeDefinitions", 0, "anchor not found")
 	} else {
